@@ -612,7 +612,7 @@ def check_enums(tier, seed, work):
     goyang's names and the observed render / parse results; TLC validates every record against
     EnumMap.tla (bijection, schema names, render-parse identity, UNSET never rendered, undefined
     values are errors)."""
-    cfgs = ["us", "cw"] if tier == "quick" else ["us", "uw", "cs", "cw", "co", "un"]
+    cfgs = ["us", "uw", "cw"] if tier == "quick" else ["us", "uw", "cs", "cw", "co", "un"]
     h, bindir = vf.prepare(work, cfgs)
     rec = os.path.join(work, "enums.ndjson")
     r = run_replay(bindir, h, "enums", ["-in", rec, "-prop", "C17", "-pkgs", ",".join(cfgs), "-schemas", vf.SCHEMAS], work, "enums")
